@@ -77,6 +77,7 @@ def count(node):
 
 class WriterContract(RoundTrip):
     prop = "C15"
+    budget_s = 200  # seconds on the unchanged tree: 1-4; a memoising wrapper multiplies paths (one case split per cache probe)
 
     def scenario(self, F):
         return mk_scenario(F, ("static", "dynamic")), mk_planning_problems(F)
@@ -136,6 +137,34 @@ for _d2 in (2, 7):
             if out.exc is None:
                 a, b = out.value
                 yield ("identical to the document of an identically constructed writer used alone", same_document(F, a, b))
+
+
+@register
+class TwoWritersInterleaved(WriterContract):
+    target = "commonroad.common.writer.file_writer_xml.XMLFileWriter.write_to_file"
+    case = "two XML writers (precision 2 and 6) are both constructed, then each writes"
+    describe = "each document equals the one an identically constructed writer produces when constructed and used alone"
+
+    def build(self, F):
+        sc, pps = self.scenario(F)
+        return {"sc": sc, "pps": pps, "args": []}
+
+    def invoke(self, F, inp):
+        mk = lambda d: F.new(CommonRoadFileWriter, inp["sc"], inp["pps"], decimal_precision=d, file_format=FileFormat.XML)
+        pa, pb, ra, rb = out_path(F, "c15_A.xml"), out_path(F, "c15_B.xml"), out_path(F, "c15_rA.xml"), out_path(F, "c15_rB.xml")
+        a, b = mk(2), mk(6)
+        F.method(a, "write_to_file", pa, OverwriteExistingFile.ALWAYS)
+        F.method(b, "write_to_file", pb, OverwriteExistingFile.ALWAYS)
+        F.method(mk(2), "write_to_file", ra, OverwriteExistingFile.ALWAYS)
+        F.method(mk(6), "write_to_file", rb, OverwriteExistingFile.ALWAYS)
+        return [written(F, p) for p in (pa, pb, ra, rb)]
+
+    def post(self, F, inp, out):
+        yield ("raises nothing", out.exc is None)
+        if out.exc is None:
+            a, b, ra, rb = out.value
+            yield ("document of the precision-2 writer equals its reference", same_document(F, a, ra))
+            yield ("document of the precision-6 writer equals its reference", same_document(F, b, rb))
 
 
 @register
@@ -249,6 +278,7 @@ def n_repeated(m):
 
 class PbWriterContract(RoundTrip):
     prop = "C15"
+    budget_s = 200
 
     def scenario(self, F):
         from contracts.c02 import WEATHER, fits_int32
